@@ -4,7 +4,7 @@
 From Coq Require Import Reals List Arith Lra.
 From Coquelicot Require Import Coquelicot.
 From OSU.Model Require Import Estimators.
-From OSU.Proofs Require Import Estimators Estimators2 Estimators3 Estimators4 Estimators5 Estimators6.
+From OSU.Proofs Require Import Estimators Estimators2 Estimators3 Estimators4 Estimators5 Estimators6 Estimators8.
 Import ListNotations.
 Open Scope R_scope.
 
@@ -31,6 +31,13 @@ Proof. exact jac_lower_symmetric. Qed.
 
 Theorem jacobian_symmetric : forall l d th m n, jacobian l d th m n = jacobian l d th n m.
 Proof. exact jacobian_symmetric. Qed.
+
+(* the Jacobian is positive semi-definite for every lambda (v^T J v = variance of v.T under the distribution):
+   Cholesky is the right first choice and can fail only through rounding or a singular covariance *)
+Theorem jacobian_psd : forall v l d th,
+  th <> [] -> length d = length th -> List.Forall (fun x => 0 < x) d ->
+  0 <= quad4 v (jacobian l d th).
+Proof. exact jacobian_psd. Qed.
 
 (* the min-shifted code computes exp(-lambda.T_j) / sum_k exp(-lambda.T_k) d_k *)
 Theorem dist_closed : forall l d th,
